@@ -882,6 +882,7 @@ impl Number {
     ///
     /// <https://tc39.es/ecma262/#sec-numeric-types-number-equal>
     #[allow(clippy::float_cmp)]
+    #[cfg_attr(kani, kani::ensures(|r| *r == crate::verif_kani::spec::equal(x, y)))]
     pub(crate) fn equal(x: f64, y: f64) -> bool {
         x == y
     }
@@ -891,6 +892,7 @@ impl Number {
     ///
     /// <https://tc39.es/ecma262/#sec-numeric-types-number-sameValue>
     #[allow(clippy::float_cmp)]
+    #[cfg_attr(kani, kani::ensures(|r| *r == crate::verif_kani::spec::same_value(a, b)))]
     pub(crate) fn same_value(a: f64, b: f64) -> bool {
         if a.is_nan() && b.is_nan() {
             return true;
@@ -903,6 +905,7 @@ impl Number {
     ///
     /// <https://tc39.es/ecma262/#sec-numeric-types-number-sameValueZero>
     #[allow(clippy::float_cmp)]
+    #[cfg_attr(kani, kani::ensures(|r| *r == crate::verif_kani::spec::same_value_zero(x, y)))]
     pub(crate) fn same_value_zero(x: f64, y: f64) -> bool {
         if x.is_nan() && y.is_nan() {
             return true;
@@ -934,6 +937,7 @@ impl Number {
         (x < y).into()
     }
 
+    #[cfg_attr(kani, kani::ensures(|r| *r == !crate::verif_kani::spec::to_int32(x)))]
     pub(crate) fn not(x: f64) -> i32 {
         let x = f64_to_int32(x);
         !x
